@@ -18,7 +18,9 @@ FIELDSETS = [None, ['id'], ['name'], ['resource'], ['estimate'], ['spent'], ['st
              ['parent'], ['id', 'name', 'nosuch'], ['TAG', 'name'], ['id', 'children', 'name'], ['wbs', 'all_parents', 'name'],
              ['all_children', 'all_successors', 'PREDECESSORS', 'to_dict'], ['name', 'id', 'predecessors', 'successors', 'parent', 'tag', 'milestone']]
 DEFAULT_FIELDS = ['id', 'name', 'resource', 'estimate', 'spent', 'start', 'end', 'predecessors']
-THEMES = [None, {'header_color': '91m', 'level_colors': ['94m']}, {'level_colors': ['96m', '93m', '95m', '91m']}]
+THEMES = [None, {'header_color': '91m', 'level_colors': ['94m']}, {'level_colors': ['96m', '93m', '95m', '91m']},
+          # colourless output (a log file, a terminal without colours): no colour for the header and / or for some levels
+          {'header_color': None, 'level_colors': [None]}, {'header_color': '91m', 'level_colors': ['94m', None, '95m']}]
 
 
 ANSI = re.compile('\033\\[[0-9;]*m')
